@@ -248,11 +248,14 @@ Shows(cls, err, out, o, strictKind) ==
     IF o.k = "ok" THEN cls = "ok" /\ out = o.t
     ELSE cls = "runtime" /\ (strictKind => err = o.k)
 
-\* slack (in ns) granted when the seconds of d may have been computed along another f64 path than the one the
-\* harness observes (ulps = 0: none): 2 ulp of |d| = |d| * 2^-51, i.e. 0.0384 ns per day, at least 1 ns
-SlackNs(d, ulps) == IF ulps = 0 THEN 0 ELSE ((d.m[1] * 39) \div 1000 + 1) * ((ulps + 1) \div 2)
-CloseTo(delta, d, ulps) == MCmp(DAbsDiff(delta, d), <<0, 0, SlackNs(d, ulps), HALF + TIESLACK>>) <= 0
-Widened(d, ulps, dir) == LET r == RoundDur(d)  w == <<0, 0, SlackNs(d, ulps), 0>> IN
+\* slack granted (lenient reading, ulps > 0) when the seconds of d may have been computed along another f64 path
+\* than the one the harness observes: ulps * ulp(|d|) <= |d| * ulps * 2^-52, i.e. per ulp 222 as per second and
+\* 0.0192 ns per day (taken as 222 as and 19 500 000 as); nothing for ulps = 0
+Slack(d, ulps) == LET q == d.m[1] * 39 * ((ulps + 1) \div 2) IN
+    IF ulps = 0 THEN ZeroM
+    ELSE MAdd(<<0, 0, q \div 1000, (q % 1000) * 1000000>>, <<0, 0, 0, (d.m[2] + 1) * 222 * ulps>>)
+CloseTo(delta, d, ulps) == MCmp(DAbsDiff(delta, d), MAdd(Slack(d, ulps), <<0, 0, 0, HALF + TIESLACK>>)) <= 0
+Widened(d, ulps, dir) == LET r == RoundDur(d)  w == MAdd(DropAtto(Slack(d, ulps)), OneNs) IN
     IF dir = 1 THEN Dur(r.sg, MAdd(r.m, w))
     ELSE IF MCmp(r.m, w) >= 0 THEN Dur(r.sg, MSub(r.m, w)) ELSE Dur(-r.sg, MSub(w, r.m))
 
